@@ -53,6 +53,7 @@ func (p *Pool) register() {
 //
 //go:norace
 func ResetPools() {
+	resetPending()
 	for i := 0; i < nPools; i++ {
 		p := allPools[i]
 		for j := range p.items {
